@@ -144,6 +144,8 @@ func genSection1(r *core.PRNG, kind string, tag int, pat *refts.PAT, pmt *refts.
 			t.Events = append(t.Events, refts.EITEvent{ID: uint16(r.Intn(65536)), Start: genTime(r), DurSecs: r.Intn(100*3600 - 1), Running: uint8(r.Intn(8)), FreeCA: r.Bool(), Descs: genDescs(r, 30)})
 		}
 		s.EIT = t
+	case "TDT":
+		return refts.Section{TDT: &refts.TDT{UTC: genTime(r)}}
 	case "TOT":
 		s.TOT = &refts.TOT{UTC: 63072000 + int64(tag)*86400 + int64(r.Intn(86400)), Descs: genDescs(r, 12)}
 	}
@@ -423,7 +425,7 @@ func GenModel(r *core.PRNG, cfg StreamCfg) *refts.Model {
 		for _, si := range []struct {
 			pid   uint16
 			kinds []string
-		}{{0x10, []string{"NIT"}}, {0x11, []string{"SDT"}}, {0x12, []string{"EIT"}}, {0x14, []string{"TOT"}}} {
+		}{{0x10, []string{"NIT"}}, {0x11, []string{"SDT"}}, {0x12, []string{"EIT"}}, {0x14, []string{"TOT", "TOT", "TDT"}}} {
 			if !r.Chance(2, 3) {
 				continue
 			}
